@@ -401,7 +401,16 @@ func (w *World) balanceOracle(n *Node, addr string, got spice.Melange, err error
 		return
 	}
 	live := liveMap(s)
-	par := parentsByEdges(s)
+	// the history of a tip is what its vertices DECLARE as parents (as far as those are still live), not
+	// whatever edges the node happens to keep
+	par := map[[32]byte][][32]byte{}
+	for h, v := range live {
+		for _, ph := range [][32]byte{v.LeftParentHash, v.RightParentHash} {
+			if live[ph] != nil && ph != h {
+				par[h] = append(par[h], ph)
+			}
+		}
+	}
 	cp := new(big.Int)
 	if m, ok := s.CpFunds[addr]; ok {
 		cp = bval(m)
